@@ -27,10 +27,11 @@ pub mod c02;
 pub mod c08;
 pub mod c11;
 pub mod c12;
+pub mod c13;
 pub mod c18;
 
 pub fn all() -> Vec<&'static dyn Prop> {
-    vec![&c01::C01, &c02::C02, &c08::C08, &c11::C11, &c12::C12, &c18::C18]
+    vec![&c01::C01, &c02::C02, &c08::C08, &c11::C11, &c12::C12, &c13::C13, &c18::C18]
 }
 
 pub fn get(id: &str) -> Option<&'static dyn Prop> {
